@@ -45,8 +45,7 @@ func (def *structAsContainer) clear(m meta.Definition) error {
 	if err != nil {
 		return err
 	}
-	h.clear()
-	return nil
+	return h.clear()
 }
 
 func (def *structAsContainer) getHandler(m meta.Definition) (reflectFieldHandler, error) {
